@@ -31,12 +31,26 @@ Proof.
     cbn [forallb]. unfold fwf. cbn [fst snd wf_tag forallb]. rewrite Ha, Hv. reflexivity.
 Qed.
 
+(* a list that is not mixed is all components or all bare strings *)
+Lemma existsb_false {A} (f : A -> bool) l x : existsb f l = false -> In x l -> f x = false.
+Proof.
+  intros H Hin. destruct (f x) eqn:E; [|reflexivity].
+  assert (T: existsb f l = true) by (apply existsb_exists; exists x; split; assumption). congruence.
+Qed.
+Lemma not_mixed_same w x0 x : mixed_args w = false -> In x0 w -> In x w -> is_AM x = is_AM x0.
+Proof.
+  unfold mixed_args. intros H H0 Hx. apply andb_false_iff in H. destruct H as [H|H].
+  - rewrite (existsb_false _ _ _ H H0), (existsb_false _ _ _ H Hx). reflexivity.
+  - pose proof (existsb_false _ _ _ H H0) as A. pose proof (existsb_false _ _ _ H Hx) as B.
+    cbv beta in A, B. apply negb_false_iff in A, B. congruence.
+Qed.
+
 Theorem wf_fields : forall m, msg_ok m = true -> forall ft, wf_tag (TComp (fields_of ft m)) = true.
 Proof.
   induction m as [t s h tr w e Hh Hw He] using msg_ind2. intros H ft.
   cbn [msg_ok] in H.
   apply andb_true_iff in H. destruct H as [H Hoe]. apply andb_true_iff in H. destruct H as [H Hle].
-  apply andb_true_iff in H. destruct H as [H Hoa]. apply andb_true_iff in H. destruct H as [H Hhom].
+  apply andb_true_iff in H. destruct H as [H Hoa].
   apply andb_true_iff in H. destruct H as [H Hlw]. apply andb_true_iff in H. destruct H as [H Htr].
   apply andb_true_iff in H. destruct H as [H Hho]. apply andb_true_iff in H. destruct H as [Ht Hs].
   cbn [wf_tag fields_of]. change (fun nf : str * tag => str_ok (fst nf) && wf_tag (snd nf)) with fwf.
@@ -52,15 +66,20 @@ Proof.
     cbn [forallb]. rewrite andb_true_r. unfold fwf. cbn [fst snd]. cbn [wf_tag].
     apply andb_true_iff; split; [reflexivity|].
     apply andb_true_iff; split; [apply andb_true_iff; split|].
-    + destruct x0; reflexivity.
+    + destruct (mixed_args (x0 :: w')); [reflexivity | destruct x0; reflexivity].
     + unfold lenN. rewrite map_length. exact Hlw.
     + apply forallb_forall. intros y Hy. apply in_map_iff in Hy. destruct Hy as [x [<- Hx]].
-      unfold args_homog in Hhom. rewrite forallb_forall in Hhom. specialize (Hhom x Hx).
       rewrite forallb_forall in Hoa. specialize (Hoa x Hx).
       rewrite Forall_forall in Hw. specialize (Hw x Hx).
-      apply andb_true_iff; split.
-      * destruct x, x0; cbn in Hhom |- *; try reflexivity; discriminate.
-      * destruct x as [m'|z]; [apply (Hw Hoa (is_nil (m_translate m'))) | cbn [wf_tag]; exact Hoa].
+      destruct (mixed_args (x0 :: w')) eqn:MX.
+      * (* mixed: every element is a compound, a bare string z as {text: z} *)
+        destruct x as [m'|z]; (apply andb_true_iff; split; [reflexivity|]).
+        -- apply (Hw Hoa (is_nil (m_translate m'))).
+        -- cbn [arg_str_tag wf_tag forallb fst snd]. rewrite Hoa. reflexivity.
+      * pose proof (not_mixed_same _ x0 x MX (or_introl eq_refl) Hx) as E.
+        apply andb_true_iff; split.
+        -- destruct x, x0; cbn in E |- *; try reflexivity; discriminate.
+        -- destruct x as [m'|z]; [apply (Hw Hoa (is_nil (m_translate m'))) | cbn [arg_str_tag wf_tag]; exact Hoa].
   - destruct e as [|e0 e']; [reflexivity|].
     cbn [forallb]. rewrite andb_true_r. unfold fwf. cbn [fst snd]. cbn [wf_tag].
     apply andb_true_iff; split; [reflexivity|].
@@ -119,7 +138,7 @@ Proof.
   - cbn [wf_tag] in H. apply andb_true_iff in H. destruct H as [_ H].
     cbn [enc_checks]. apply forallb_forall. intros x Hx. rewrite forallb_forall in H.
     specialize (H x Hx). apply andb_true_iff in H. destruct H as [H1 H2].
-    rewrite Forall_forall in IH. cbv beta. rewrite H1, (IH x Hx H2). reflexivity.
+    rewrite Forall_forall in IH. exact (IH x Hx H2).
   - cbn [wf_tag] in H. cbn [enc_checks]. apply forallb_forall. intros x Hx.
     rewrite forallb_forall in H. specialize (H x Hx). apply andb_true_iff in H. destruct H as [H1 H2].
     unfold str_ok in H1. apply andb_true_iff in H1. destruct H1 as [H1 _].
@@ -135,13 +154,31 @@ Proof.
   destruct target as [t|]; [rewrite (wf_enc_checks _ (wf_to_nbt t Ht))|]; reflexivity.
 Qed.
 
-(* a mixed argument list has no NBT list image: the encoder refuses it, so such a component cannot be
-   written in the NBT form at all (the JSON form is unaffected) *)
+(* an argument list mixing bare strings and components (the former finding C17.nbt.mixed-args): its NBT
+   image is a list of compounds in which a bare string z is the text-only component {text: z}, the
+   components are unchanged; the former counter-example is written, read back and agrees with the JSON form *)
+Definition arg_comp_tag (x : arg) : tag :=
+  match x with
+  | AM m' => to_nbt m'
+  | AS z => to_nbt (text_msg z)
+  end.
+Theorem wire_mixed_image ft t s h tr w e : mixed_args w = true ->
+  In (k_with, TList idCompound (map arg_comp_tag w)) (fields_of ft (Msg t s h tr w e)).
+Proof.
+  intros MX. cbn [fields_of]. rewrite MX.
+  destruct w as [|x0 w']; [discriminate|].
+  apply in_or_app; right. apply in_or_app; right. apply in_or_app; right. apply in_or_app; right.
+  apply in_or_app; left. left. apply f_equal. apply f_equal. apply map_ext. intros [m'|z]; reflexivity.
+Qed.
+
 Definition mixed_witness : msg :=
   Msg [] style0 None [107] [AS [120]; AM (text_msg [121])] [].
-Lemma wire_mixed_refuted :
-  exists m, homog m = false /\ wire_opt m = None /\ of_json (to_json m) = Some (norm m).
-Proof. exists mixed_witness. split; [reflexivity|]. split; vm_compute; reflexivity. Qed.
+Lemma wire_mixed_witness :
+  mixed_args (m_with mixed_witness) = true /\ msg_ok mixed_witness = true /\
+  wire_opt mixed_witness = Some (wire mixed_witness) /\
+  msg_read (wire mixed_witness) = Some (norm mixed_witness, []) /\
+  of_json (to_json mixed_witness) = Some (norm mixed_witness).
+Proof. repeat split; vm_compute; reflexivity. Qed.
 
 (* accepted shapes: bare string, list of strings, list of components (both forms) *)
 Lemma accepts_nbt_string_wire s rest : str_ok s = true ->
